@@ -18,10 +18,12 @@ func init() {
 }
 
 func checkC14(c *Ctx) {
-	r141(c)
+	r141(c, "R14.1 spill-file-pairing")
 	r142(c)
 	r143(c)
 	r144(c, "R14.4 buffer-write-discipline")
+	rStatusKept(c, "R14.9 buffered-status-kept")
+	rSendNoEmptyWrite(c, "R14.10 nothing-written-when-nothing-buffered")
 	r145(c)
 	r146(c, "R14.6 wrappers-keep-hijack-and-flush")
 	r147(c)
@@ -29,8 +31,7 @@ func checkC14(c *Ctx) {
 	persistedFields(c, "R14.8 buffering-settings-survive-restart", "TargetOptions", nil)
 }
 
-func r141(c *Ctx) {
-	const rule = "R14.1 spill-file-pairing"
+func r141(c *Ctx, rule string) {
 	c.floor(rule, 9)
 	diskF := c.field("Buffer", "diskBuffer")
 	// acquire: exactly one os.CreateTemp in the proxy besides the state file's
@@ -910,4 +911,89 @@ func linearTerms(v ssa.Value, sign int, out map[string]int) {
 		}
 	}
 	out[fmt.Sprintf("val:%p", v)] += sign
+}
+
+// rStatusKept: the buffered writer hands the client the status the target sent: WriteHeader records its argument before
+// it marks the header as written (on every path - also the one that switches to unbuffered delivery, which sends the
+// recorded status at once), and Send passes the recorded status on (shared by C13, C14).
+func rStatusKept(c *Ctx, rule string) {
+	c.floor(rule, 2)
+	wh := c.method("bufferedResponseWriter", "WriteHeader")
+	send := c.method("bufferedResponseWriter", "Send")
+	statusF, hwF := c.field("bufferedResponseWriter", "statusCode"), c.field("bufferedResponseWriter", "headerWritten")
+	var statusStores []ssa.Instruction
+	for _, w := range c.writesOfField(statusF) {
+		if w.fn == wh && w.val == ssa.Value(wh.Params[1]) {
+			statusStores = append(statusStores, w.instr)
+		}
+	}
+	n := 0
+	for _, w := range c.writesOfField(hwF) {
+		if w.fn != wh {
+			continue
+		}
+		if b, isC := constBool(w.val); !isC || !b {
+			continue
+		}
+		n++
+		ok := false
+		for _, st := range statusStores {
+			if dominates(st, w.instr) {
+				ok = true
+			}
+		}
+		c.ob(rule, "WriteHeader/status-recorded-before-header-marked-written", w.instr.Pos(), ok, true, "once headerWritten is set the recorded status is what reaches the client (at Send, or at once when switching to unbuffered delivery): it must have been stored first")
+	}
+	c.ob(rule, "WriteHeader/marks-header-written", wh.Pos(), n >= 1, true, "")
+	okSend := false
+	for _, cs := range callsIn(send) {
+		if cs.common().IsInvoke() && cs.common().Method.Name() == "WriteHeader" && len(cs.common().Args) == 1 && isLoadOfField(cs.common().Args[0], statusF) {
+			if on, _ := boolFacts(cs.instr, matchFieldLoad(hwF)); on {
+				okSend = true
+			}
+		}
+	}
+	c.ob(rule, "Send/passes-the-recorded-status-on", send.Pos(), okSend, true, "when a header was written, Send must write the recorded status to the client before the body")
+}
+
+// rSendNoEmptyWrite: Buffer.Send must not touch the client's writer when there is nothing to send: a zero-length Write
+// commits "200 OK", after which the error page for a target that failed before sending anything goes out under 200.
+// io.Copy never calls Write for an empty reader; a direct Write must be guarded by a non-empty test (shared by C14, C15).
+func rSendNoEmptyWrite(c *Ctx, rule string) {
+	c.floor(rule, 1)
+	send := c.method("Buffer", "Send")
+	w := ssa.Value(send.Params[1])
+	nCopy := 0
+	for _, cs := range callsIn(send) {
+		cc := cs.common()
+		if calleeName(cc) == "io.Copy" && len(cc.Args) == 2 && resolve(cc.Args[0]) == w {
+			nCopy++
+			continue
+		}
+		usesW := false
+		if cc.IsInvoke() && resolve(cc.Value) == w {
+			usesW = true
+		}
+		for _, a := range cc.Args {
+			if resolve(a) == w {
+				usesW = true
+			}
+		}
+		if !usesW {
+			continue
+		}
+		// some other use of the destination: only with something to write
+		nonEmpty := false
+		for _, ce := range dominatingConds(cs.instr.Block()) {
+			if cm, ok := ce.asCmp(); ok {
+				if k, isK := constInt(cm.y); isK && ((cm.op == token.GTR && k == 0) || (cm.op == token.GEQ && k == 1) || (cm.op == token.NEQ && k == 0)) {
+					if call, isCall := cm.x.(*ssa.Call); isCall && (strings.HasSuffix(calleeName(call.Common()), ".Len") || calleeName(call.Common()) == "builtin.len") {
+						nonEmpty = true
+					}
+				}
+			}
+		}
+		c.ob(rule, "Send/direct-use-of-the-destination-only-with-data", cs.pos(), nonEmpty, true, "a Write of zero bytes on an http.ResponseWriter commits status 200: the destination may be written directly only under a test that there is something to write (io.Copy does not write for an empty source)")
+	}
+	c.ob(rule, "Send/delivers-through-io.Copy", send.Pos(), nCopy >= 1, false, "")
 }
